@@ -53,6 +53,9 @@ def parseNode (v : Json) : Except String NodeDef := do
       | "add" => pure Fn.add
       | "sub" => pure Fn.sub
       | "mul" => pure Fn.mul
+      | "sum" => pure Fn.sum
+      | "sumN" => pure Fn.sumN
+      | "hist" => pure (Fn.hist (← getIntList v "edges"))
       | _ => throw s!"unknown fn {f}"
     pure (.comp fn (← parseArg (← v.getObjVal? "a")) (← parseArg (← v.getObjVal? "b")))
 
@@ -125,6 +128,61 @@ def handle (op : String) (j : Json) : Except String Json := do
     let s := match evalMem nodes (root + 1) root with
       | some v => Json.mkObj [("value", intList v)]
       | none => errJ "bad"
+    pure (reply m (some s))
+  | "pipeline" =>
+    let sizes ← getNatList j "sizes"
+    let kind ← getStr j "kind"
+    let bins ← getNat j "bins"
+    let chunks ← (← getArr j "chunks").mapM (fun ch => do
+      let rows ← (← ch.getArr?).toList.mapM asNatList
+      rows.mapM (fun r => match r with
+        | [c, s, e] => pure ({ c := c, s := s, e := e } : C10.Iv)
+        | _ => throw "interval expected"))
+    let ivs := chunks.flatten
+    let peaks ← (← getArr j "peaks").mapM (fun r => do
+      match (← asNatList r) with
+      | [c, s, e] => pure ({ c := c, s := s, e := e } : C10.Iv)
+      | _ => throw "interval expected")
+    let edges : List Int := (List.range (bins + 1)).map (fun (i : Nat) => Int.ofNat i)
+    let toI (l : List Nat) : List Int := l.map (fun (n : Nat) => Int.ofNat n)
+    let histJ (h : List Nat) : Json := Json.mkObj [("hist", natList h), ("edges", intList edges)]
+    let bufs := chromBuffers sizes.length chunks
+    let per := bufs.map (fun b => List.zipWith pileup1 sizes b)
+    let m := match kind, per with
+      | _, none => errJ "genome"
+      | "pileup_data", some p => natListList p
+      | "pileup_sum", some _ => (match streamPileupSum sizes chunks with | some n => nat n | none => errJ "genome")
+      | "mask_sum", some _ => (match streamMask sizes chunks with | some mk => nat mk.sum | none => errJ "genome")
+      | "under", some _ => (match streamValues sizes chunks [peaks] with | some rows => natListList rows | none => errJ "genome")
+      | "pileup_hist", some p =>
+        (match histogramReduce (p.map (fun d => (histogram edges (toI d), edges))) with
+         | some (h, _) => histJ h
+         | none => errJ "empty")
+      | _, _ => errJ "kind"
+    let s := match kind, C10.pileupGlobal sizes ivs, C10.maskGlobal sizes ivs with
+      | "pileup_data", some d, _ => natListList (C10.toDict sizes d)
+      | "pileup_sum", some d, _ => nat d.sum
+      | "mask_sum", _, some mk => nat mk.sum
+      | "pileup_hist", some d, _ => histJ (histogram edges (toI d))
+      | "under", some d, _ => (match Base.omap (C10.extractRow sizes d false) peaks with | some rows => natListList rows | none => errJ "invalid")
+      | _, _, _ => errJ "invalid"
+    pure (reply m (some s))
+  | "graph_many" =>
+    let nodes ← (← getArr j "nodes").mapM parseNode
+    let roots ← getNatList j "roots"
+    let mode ← getStr j "mode"
+    let nchunks := nodes.foldl (fun acc d => match d with | .stream cs => max acc cs.length | _ => acc) 0
+    let mem := roots.map (fun r => evalMem nodes (r + 1) r)
+    let s := if mem.all (·.isSome) then Json.mkObj [("vals", intListList (mem.map (·.getD [])))] else errJ "bad"
+    let m := if mode == "concat" then
+        match computeMany nodes roots (nchunks + 2) with
+        | .ok (cols, _) => Json.mkObj [("vals", intListList cols)]
+        | .error e => gerrJ e
+      else
+        match computeReduced nodes roots (nchunks + 2) with
+        | .ok (some res, _) => Json.mkObj [("vals", intListList res)]
+        | .ok (none, _) => errJ "empty"
+        | .error e => gerrJ e
     pure (reply m (some s))
   | _ => throw s!"C11: unknown op {op}"
 
